@@ -33,7 +33,7 @@ RULE = ('Part A: Hypothesis-generated peer scripts (1-6 writes of 0..300 KB, the
         'timeout) x {pty, pipe, socket} x maxread/size in {1, 7, 100, 2000, 65536} x select|poll x loop style '
         '{read_nonblocking until EOF, expect(EOF), read()} x socket timeout found in {None, 0.0, 2.5}, on real kernel '
         'objects with interposed syscalls and a virtual clock.  Part B: real pty/Popen children with randomised '
-        'sleeps.  Both tiers also enumerate exhaustively every placement of a short peer script (write(s), close, exit in both '
+        'sleeps, read by expect(EOF), blocking read_nonblocking or a polling loop whose per-read time limits cycle through a generated list over {0, 0.5 ms, 10 ms, 60 s}.  Both tiers also enumerate exhaustively every placement of a short peer script (write(s), close, exit in both '
         'orders) between the first 14 interposed system calls of the reader.  Non-trivial: a peer action fell between two reader syscalls of one API call, or the output '
         'exceeds the read size, or the peer exited/closed with unread data.  Distinct by hash of the case.')
 ASSUMPTIONS = [
@@ -48,7 +48,7 @@ def shards(tier):
     q = tier == 'quick'
     out = [{'kind': 'sweep', 'part': k, 'parts': 4} for k in range(4)]
     out += [{'kind': 'sim', 'n': 1000 if q else 25000} for _ in range(10)]
-    out += [{'kind': 'real', 'n': 20 if q else 400} for _ in range(4)]
+    out += [{'kind': 'real', 'n': 30 if q else 400} for _ in range(4)]
     return out
 
 
@@ -239,7 +239,8 @@ def real_cases(draw):
         acts.append(['s', draw(st.sampled_from([0, 0, 0.0001, 0.001, 0.005]))])
     return {'kind': kind, 'acts': acts, 'exit': draw(st.sampled_from([0, 3])),
             'maxread': draw(st.sampled_from([1000, 2000, 65536])),
-            'style': draw(st.sampled_from(['expect_eof', 'rnb']))}
+            'style': draw(st.sampled_from(['expect_eof', 'rnb', 'rnbmix'])),
+            'rtimeouts': draw(st.lists(st.sampled_from([0, 0, 0.0005, 0.01, 60]), min_size=1, max_size=4))}
 
 
 def check_real(case, col=None):
@@ -264,6 +265,25 @@ def check_real(case, col=None):
                 if case['style'] == 'expect_eof':
                     child.expect(EOF)
                     got = child.before
+                elif case['style'] == 'rnbmix':
+                    # polling reader: per-read time limits cycle through a generated list (0 = look once)
+                    import time as _time
+                    t_end = _time.time() + 60
+                    k = 0
+                    while True:
+                        T = case['rtimeouts'][k % len(case['rtimeouts'])]
+                        k += 1
+                        try:
+                            d = child.read_nonblocking(case['maxread'], T)
+                        except TIMEOUT:
+                            if _time.time() > t_end:
+                                raise
+                            if T == 0:
+                                _time.sleep(0.0003)
+                            continue
+                        if len(d) > case['maxread']:
+                            raise Violation('read-larger-than-size', 'read_nonblocking(%d) returned %d bytes' % (case['maxread'], len(d)))
+                        got += d
                 else:
                     while True:
                         d = child.read_nonblocking(case['maxread'], 60)
@@ -274,8 +294,6 @@ def check_real(case, col=None):
                 pass
             except TIMEOUT:
                 raise Violation('real-timeout', '%s child: TIMEOUT (60 s) before EOF; got %d of %d bytes' % (case['kind'], len(got), len(want)))
-        if case['style'] == 'rnb' and False:
-            pass
         if got != want:
             k = 0
             while k < min(len(got), len(want)) and got[k] == want[k]:
@@ -290,6 +308,7 @@ def check_real(case, col=None):
         ps.cleanup()
     if col is not None:
         col.label('real=' + case['kind'])
+        col.label('real-style=' + case['style'])
         col.case(case, len(want) > case['maxread'])
 
 
